@@ -68,6 +68,8 @@ func w1GenProp(r *rand.Rand, c *simrt.Case, nclients, maxOps int, prop, tier str
 		w1GenACL(r, c, nclients, maxOps)
 	case "C11":
 		w1GenVersions(r, c, nclients, maxOps)
+	case "C19":
+		w1GenLease(r, c, nclients, maxOps)
 	case "C03", "C04":
 		cfg["topics"] = 2
 		cfg["partitions"] = 2
